@@ -12,7 +12,8 @@ CHK_SRC_NULL(..)                                               /* handler(ESNULL
 if (slen > RSIZE_MAX_WSTR) { handler(ESLEMAX); return ESLEMAX; }
 if (srcbos == BOS_UNKNOWN) { BND_CHK_PTR_BOUNDS(src, srcsz); } /* expands to nothing in this build */
 else if (srcsz > srcbos) { handler(EOVERFLOW); return EOVERFLOW; }   /* srcbos in BYTES; nothing is cleared */
-while (*src && slen) { *src = MAP(*src); src++; slen--; }      /* the cell is read BEFORE the counter is tested */
+while (slen && *src) { *src = MAP(*src); src++; slen--; }      /* before 7997192 / c770409: `*src && slen` - the cell was
+                                                                   read BEFORE the counter was tested (switch `rb`) */
 return EOK;
 ```
 
@@ -93,35 +94,36 @@ def towlowerLibc (wc : Nat) : Nat :=
 
 /-- `while (*src && slen) { *src = f(*src); src++; slen--; }`: `*src` is read first, so when the counter has
 run out the loop still reads `src[slen]` before it stops; the body reads the cell again for the call. -/
-def wcaseLoop (f : Nat → Nat) : Nat → Nat → Prog Unit
-  | 0, src => do
-    let _ ← load src                     -- `*src && slen` with slen == 0: the read happens, the result is unused
-    pure ()
+def wcaseLoop (rb : Bool) (f : Nat → Nat) : Nat → Nat → Prog Unit
+  | 0, src =>
+    -- rb (the tree before 7997192 / c770409): `*src && slen` with slen == 0 — the read happens, the result is unused;
+    -- now `slen && *src`: the cell behind the last permitted one is not touched
+    if rb then do let _ ← load src; pure () else pure ()
   | slen+1, src => do
     let c ← load src
     if c = 0 then pure ()
     else do
       let c1 ← load src
       store src (f c1 % 2^32)
-      wcaseLoop f slen (src+1)
+      wcaseLoop rb f slen (src+1)
 
 /-- the text shared by `_wcslwr_s_chk(src, slen, srcbos)` and `_wcsupr_s_chk(src, slen, srcbos)`; `srcbos` in bytes -/
-def wcase_s (f : Nat → Nat) (src slen : Nat) (srcbos : Bos) : Prog Nat :=
+def wcase_s (rb : Bool) (f : Nat → Nat) (src slen : Nat) (srcbos : Bos) : Prog Nat :=
   if slen = 0 then pure EOK
   else if src = 0 then failS ESNULLP
   else if slen > RSIZE_MAX_WSTR then failS ESLEMAX
   else
     let body : Prog Nat := do
-      wcaseLoop f slen src
+      wcaseLoop rb f slen src
       pure EOK
     match srcbos with
     | none => body
     | some bos => if slen * SIZEOF_WCHAR_T > bos then failS EOVERFLOW else body
 
 /-- `_wcslwr_s_chk(src, slen, srcbos)` -/
-def wcslwr_s (_cfg : Cfg) (src slen : Nat) (srcbos : Bos) : Prog Nat := wcase_s towlowerLibc src slen srcbos
+def wcslwr_s (cfg : Cfg) (src slen : Nat) (srcbos : Bos) : Prog Nat := wcase_s (!cfg.fixWcaseOrder) towlowerLibc src slen srcbos
 
 /-- `_wcsupr_s_chk(src, slen, srcbos)` -/
-def wcsupr_s (_cfg : Cfg) (src slen : Nat) (srcbos : Bos) : Prog Nat := wcase_s towupperLib src slen srcbos
+def wcsupr_s (cfg : Cfg) (src slen : Nat) (srcbos : Bos) : Prog Nat := wcase_s (!cfg.fixWcaseOrder) towupperLib src slen srcbos
 
 end SafeC
